@@ -195,6 +195,7 @@ static void run_case(const cf_node_t *tree, const cf_node_t *tree2,
     int bad, rv, e;
     char *text = NULL;
     size_t text_len = 0;
+    long live0 = vt_alloc_live;
 
     /* build */
     path_buf[0] = '\0';
@@ -335,7 +336,7 @@ static void run_case(const cf_node_t *tree, const cf_node_t *tree2,
 	int leak = cf_leak_check();
 
 	vt_put("{\"e\":\"End\",\"live\":%ld,\"leak\":%d,\"rootNull\":%d}",
-		vt_alloc_live, leak, root == NULL);
+		vt_alloc_live - live0, leak, root == NULL);
 	vt_end_line();
 	if (leak) {
 	    unlink(file_yaml);
